@@ -49,7 +49,12 @@ type ClDoc struct {
 	Entries      []ClEntry `json:"entries"`
 	FinalNewline bool      `json:"finalNewline"`
 	Trailing     int       `json:"trailing"` // blank lines after the last entry
+	// Footer: the comment lines debhelper appends to a trimmed changelog ("# Older entries have
+	// been removed from this changelog."), after the trailing blank lines
+	Footer bool `json:"footer,omitempty"`
 }
+
+const clFooter = "# Older entries have been removed from this changelog.\n# To read the complete changelog use `apt changelog hello`.\n"
 
 func clWhen(e ClEntry) time.Time {
 	return time.Unix(e.Unix, 0).In(time.FixedZone("", e.OffMin*60))
@@ -67,6 +72,10 @@ func renderClEntry(e ClEntry) (header, body, trailer string) {
 		layout = "Mon, 2 Jan 2006 15:04:05 -0700"
 	case "_":
 		layout = "Mon, _2 Jan 2006 15:04:05 -0700"
+	case ",":
+		layout = "Mon,02 Jan 2006 15:04:05 -0700" // deb-changelog(5): zero or more blanks after the comma
+	case ",,":
+		layout = "Mon,   2 Jan 2006 15:04:05 -0700"
 	}
 	trailer = fmt.Sprintf(" -- %s  %s\n", e.Who, clWhen(e).Format(layout))
 	return header, e.Body, trailer
@@ -83,7 +92,11 @@ func renderClDoc(d ClDoc) string {
 	if !d.FinalNewline {
 		return strings.TrimSuffix(s, "\n")
 	}
-	return s + strings.Repeat("\n", d.Trailing)
+	s += strings.Repeat("\n", d.Trailing)
+	if d.Footer {
+		s += clFooter
+	}
+	return s
 }
 
 func genClEntry(t *rapid.T, first bool) ClEntry {
@@ -139,10 +152,10 @@ func genClEntry(t *rapid.T, first bool) ClEntry {
 	if e.Gap > 0 && rapid.IntRange(0, 5).Draw(t, "gapws") == 0 {
 		e.GapLines = []string{}
 		for i := 0; i < e.Gap; i++ {
-			e.GapLines = append(e.GapLines, rapid.SampledFrom([]string{"", " ", "  ", "\t", " \t"}).Draw(t, "gapl"))
+			e.GapLines = append(e.GapLines, rapid.SampledFrom([]string{"", " ", "  ", "\t", " \t", "# a comment line", "#", "# vim: set ft=debchangelog:"}).Draw(t, "gapl"))
 		}
 	}
-	e.DayStyle = rapid.SampledFrom([]string{"", "", "", "1", "_"}).Draw(t, "daystyle")
+	e.DayStyle = rapid.SampledFrom([]string{"", "", "", "1", "_", ",", ",,"}).Draw(t, "daystyle")
 	return e
 }
 
@@ -166,6 +179,7 @@ func genClDoc(t *rapid.T) ClDoc {
 	}
 	if d.FinalNewline {
 		d.Trailing = rapid.SampledFrom([]int{0, 0, 1, 2}).Draw(t, "trailing")
+		d.Footer = rapid.IntRange(0, 3).Draw(t, "footer") == 0
 	}
 	return d
 }
@@ -216,7 +230,7 @@ func entriesMatch(got changelog.ChangelogEntries, want []ClEntry) error {
 
 var specC17Model = Register(&Spec[ClDoc]{
 	Prop: "C17", Name: "model",
-	Rule: "changelogs rendered from an entry-list model: 1..6 entries; source [a-z0-9][a-z0-9+.-]+, Policy-grammar version, 1..3 distributions, 1..3 key=value options, body of blank lines after the header, '  * item', deeper continuation, '  [ Name ]', blank lines, lines of blanks only, lines ending in blanks or a tab, and lines containing ' -- ', ';', '(' in the middle, blank lines before the trailer; maintainer 'Name <mail>'; timestamp from a generated instant and zone offset (-12:00..+14:00 incl. half/quarter hours and +00:01) rendered like date -R, or with the day's leading zero left out or replaced by a blank (Policy allows a day 32); 0..3 blank lines between entries, in 1/6 of the cases carrying blanks or a tab (dpkg reads ^\\s*$ as blank); final newline present or absent; trailing blank lines. Oracle: changelog.Parse returns one entry per block in order with Source, Version (parts), Target (distributions joined by one blank), Arguments, Changelog == exact bytes between header and trailer line, ChangedBy, When equal as instant AND zone offset; ParseOne returns the first; parsing the same text again right after three failing parses (document cut inside a body, trailer without date) gives the same entries. Non-trivial: >= 2 entries, >= 2 options, or no final newline; distinct by text.",
+	Rule: "changelogs rendered from an entry-list model: 1..6 entries; source [a-z0-9][a-z0-9+.-]+, Policy-grammar version, 1..3 distributions, 1..3 key=value options, body of blank lines after the header, '  * item', deeper continuation, '  [ Name ]', blank lines, lines of blanks only, lines ending in blanks or a tab, and lines containing ' -- ', ';', '(' in the middle, blank lines before the trailer; maintainer 'Name <mail>'; timestamp from a generated instant and zone offset (-12:00..+14:00 incl. half/quarter hours and +00:01) rendered like date -R, or with the day's leading zero left out or replaced by a blank (Policy allows a day 32); 0..3 blank lines between entries, in 1/6 of the cases carrying blanks or a tab (dpkg reads ^\\s*$ as blank) or being '#' comment lines, which the format says are ignored; final newline present or absent; trailing blank lines, in a quarter of the cases followed by the two-line '# Older entries have been removed ...' footer of a trimmed changelog. Oracle: changelog.Parse returns one entry per block in order with Source, Version (parts), Target (distributions joined by one blank), Arguments, Changelog == exact bytes between header and trailer line, ChangedBy, When equal as instant AND zone offset; ParseOne returns the first; parsing the same text again right after three failing parses (document cut inside a body, trailer without date) gives the same entries. Non-trivial: >= 2 entries, >= 2 options, or no final newline; distinct by text.",
 	Check: func(d ClDoc, r *Recorder) error {
 		text := renderClDoc(d)
 		nt := len(d.Entries) >= 2 || !d.FinalNewline
@@ -373,7 +387,12 @@ func checkClPrefix(c ClPrefix, r *Recorder) error {
 		}
 	}
 	rest := prefix[pos:]
-	inside := strings.TrimSpace(rest) != ""
+	inside := false // does anything but blank lines and '#' comment lines follow the last complete entry?
+	for _, l := range strings.Split(rest, "\n") {
+		if t := strings.TrimSpace(l); t != "" && !strings.HasPrefix(l, "#") {
+			inside = true
+		}
+	}
 	r.Case(prefix, inside, map[bool]string{true: "cut-inside-entry", false: "cut-at-boundary"}[inside])
 	if inside && c.Cut%97 == 0 {
 		r.Sample(prefix)
